@@ -681,7 +681,7 @@ def shrink_session(ctx, o):
 
     def build(its):
         conns = []
-        for i in range(len(case['conns'])):
+        for i in sorted({j for j, _, _ in its}):      # connections left without a line are not opened
             mine = [(ln, k) for j, ln, k in its if j == i]
             conns.append({'chunks': [hx(b''.join(ln + b'\n' for ln, _ in mine))] if mine else [],
                           'keep': [k for _, k in mine],
@@ -1139,7 +1139,7 @@ def run(ctx):
                                        'detail': {'verdict': ev['judge']['bad'], 'died': ev['impl']['died_text']}})
     res.notes.append(f'{ncorpus} corpus cases run first')
     # ---------- sessions: connections one after the other on one node, run again with neutral lines left out ----------
-    gen = [gen_session(rng) for _ in range(ctx.budget(500, 5000))]
+    gen = [gen_session(rng) for _ in range(ctx.budget(300, 4000))]
     answers = ctx.driver.batch([{'p': 'C07', 'k': 'neutral', 'stream': hx(s)} for streams, _ in gen for s in streams])
     sessions = list(sess_corpus)
     pos = 0
